@@ -38,6 +38,9 @@ func runPO(ld *Loaded, r *sym.Run, st *sym.State, j Job, opt Options, scen int) 
 		roots = append(roots, &sym.POThread{Name: sp.Name, Entry: sp.Fn, Init: st, Final: sp.Final})
 	}
 	po := sym.NewPO(ld.Eng, r, proMax)
+	if j.H.POLoop > 0 {
+		r.LoopBound = j.H.POLoop
+	}
 	po.Verbose = opt.Verbose && os.Getenv("VERIF_POTHREADS") != ""
 	if j.H.MaxSpawn > 0 {
 		po.MaxSpawn = j.H.MaxSpawn
@@ -54,7 +57,13 @@ func runPO(ld *Loaded, r *sym.Run, st *sym.State, j Job, opt Options, scen int) 
 			if len(po.Accessed[k]) >= 2 && !po.Shared[k] {
 				po.Shared[k] = true
 				grew = true
+				if po.Verbose {
+					fmt.Fprintf(os.Stderr, "    pass %d: new shared location %s\n", it, k)
+				}
 			}
+		}
+		if po.Verbose {
+			fmt.Fprintf(os.Stderr, "    pass %d: shared=%d classes=%s rerun=%v\n", it, len(po.Shared), po.ClassSummary(), po.Rerun())
 		}
 		if !grew && !po.Rerun() {
 			break
@@ -76,6 +85,13 @@ func runPO(ld *Loaded, r *sym.Run, st *sym.State, j Job, opt Options, scen int) 
 	to := time.Duration(j.H.POTimeout) * time.Second
 	if to == 0 {
 		to = 120 * time.Second
+	}
+	if v := os.Getenv("VERIF_POTIMEOUT"); v != "" {
+		var n int
+		fmt.Sscanf(v, "%d", &n)
+		if n > 0 {
+			to = time.Duration(n) * time.Second
+		}
 	}
 	hasFinal := false
 	for _, t := range po.Threads {
